@@ -166,7 +166,7 @@ fn trees<T: Chunky<Item = (f64, f64)>>(tname: &'static str, with_error: bool, al
         alpha_name: alpha.into(),
         alpha: pair_alphabet(alpha),
         max_len,
-        cap_per_word: 20_000,
+        cap_per_word: 4_000,
         judge: mk_judge::<T>(tname, with_error, cache, board),
         extra: Box::new(move || json!({"worst_error_over_envelope": b2.dump()})),
     })
@@ -184,6 +184,12 @@ pub fn plan(tier: Tier) -> Plan {
         let l = if q { lq } else { lt };
         checks.push(trees::<WeightedMean>("WeightedMean", false, a, l));
         checks.push(trees::<WeightedMeanWithError>("WeightedMeanWithError", true, a, l));
+    }
+    {
+        let (c1, b1) = (Arc::new(ExactCache::new(2)), Arc::new(RatioBoard::new()));
+        checks.push(Box::new(super::c20::ExtendSplit::<WeightedMeanWithError> { prop: "C08", alpha_name: "m4".into(), alpha: pair_alphabet("m4"), max_len: if q { 5 } else { 6 }, judge: mk_judge::<WeightedMeanWithError>("WeightedMeanWithError", true, c1, b1) }));
+        let (c2, b2) = (Arc::new(ExactCache::new(2)), Arc::new(RatioBoard::new()));
+        checks.push(Box::new(super::c20::ExtendSplit::<WeightedMean> { prop: "C08", alpha_name: "m4".into(), alpha: pair_alphabet("m4"), max_len: if q { 5 } else { 6 }, judge: mk_judge::<WeightedMean>("WeightedMean", false, c2, b2) }));
     }
     for (name, with_error) in [("WeightedMeanWithError", true)] {
         let board = Arc::new(RatioBoard::new());
@@ -208,7 +214,7 @@ pub fn plan(tier: Tier) -> Plan {
         }));
     }
     Plan {
-        rule: "large n: chains built by merging an estimator with itself up to 34 (40) times and every cross merge of two chains, against exact weighted sums with multiplicities; AND add-only: every sequence of (x, w) pairs over product alphabets (x from 3 values, w from {0, 1e-6, 0.5, 1, 3, 1e6}: a zero weight at every position, first included) up to the depth bound; merge trees: the interval exploration of C02 over 4-/8-pair alphabets (zero-weight chunks included); every state judged against exact rational weighted sums when the exact total weight is positive; non-trivial = at least two pairs".into(),
+        rule: "built by extend: every word of length <= 5 (6) x every split into a prefix (add loop or collect) and a rest fed through extend by value / by reference, judged by the same value oracle; large n: chains built by merging an estimator with itself up to 34 (40) times and every cross merge of two chains, against exact weighted sums with multiplicities; AND add-only: every sequence of (x, w) pairs over product alphabets (x from 3 values, w from {0, 1e-6, 0.5, 1, 3, 1e6}: a zero weight at every position, first included) up to the depth bound; merge trees: the interval exploration of C02 over 4-/8-pair alphabets (zero-weight chunks included); every state judged against exact rational weighted sums when the exact total weight is positive; non-trivial = at least two pairs".into(),
         assumptions: common_assumptions(),
         checks,
     }
